@@ -361,6 +361,7 @@ func isUnboundCtor(fn *ssa.Function) bool {
 }
 
 type lifecycleOpts struct {
+	panics                  bool // with only == "closing": also the panic-source section
 	skipDeliveryAfterCancel bool
 	only                    string // "" = all sections; "closing" = ownership/closing rules only
 	catchExit               bool   // with only == "closing": also the catch-false-exits section
@@ -567,6 +568,9 @@ func stageLifecycleRules(c *core.Ctx, s *Stage, o lifecycleOpts) {
 				c.Doc("catch-false-exits", 4, "the false edge of the catch role reaches exit without further events")
 			}
 			catchFalseExits(c, procs)
+		}
+		if o.panics {
+			panicSources(c, s, procs)
 		}
 		return
 	}
@@ -781,50 +785,7 @@ func stageLifecycleRules(c *core.Ctx, s *Stage, o lifecycleOpts) {
 		}
 	}
 
-	// ---- panic sources ---------------------------------------------------------
-	for _, pr := range procs {
-		ok := true
-		for _, p := range pr.an.AllPaths() {
-			if p.Exit == ir.ExitPanic {
-				ok = false
-				c.Fail("no-panic-source", pr.name, lastPos(p), "explicit panic reachable in a library goroutine")
-				break
-			}
-			if st, d := divisionWithoutGuard(pr.an, p, func(d *ir.Term) bool { return spawnGuardsNonZero(s, pr, d) }); st != nil {
-				ok = false
-				c.Fail("no-panic-source", pr.name, st.Pos(), "an integer division by %s is executed although the path has not excluded %s == 0 (the goroutine dies with 'integer divide by zero')", short(d), short(d))
-				break
-			}
-			if st := constIndexWithoutBound(p); st != nil {
-				ok = false
-				c.Fail("no-panic-source", pr.name, st.Pos(), "an element of a slice argument is read at a constant index although the path has not established that the slice is that long (an empty argument list panics with index out of range)")
-				break
-			}
-			closed := map[string]bool{}
-			for i := range p.Steps {
-				st := &p.Steps[i]
-				if st.Kind != ir.KClose {
-					continue
-				}
-				k := st.A[0].Key()
-				if closed[k] {
-					ok = false
-					c.Fail("no-panic-source", pr.name, st.Pos(), "channel closed twice on one path")
-				}
-				closed[k] = true
-				if !isMadeChan(st.A[0]) {
-					ok = false
-					c.Fail("no-panic-source", pr.name, st.Pos(), "close of a channel the stage did not make (%s): closing a foreign or nil channel can panic", short(st.A[0]))
-				}
-			}
-			if !ok {
-				break
-			}
-		}
-		if ok {
-			c.Ok("no-panic-source", pr.name, pr.fn.Pos(), "no panic / double close / foreign close")
-		}
-	}
+	panicSources(c, s, procs)
 
 	// ---- no delivery after an observed cancellation ------------------------------
 	if !o.skipDeliveryAfterCancel {
@@ -1610,10 +1571,21 @@ func divisionWithoutGuard(an *ir.Analysis, p *ir.Path, outer func(d *ir.Term) bo
 					ty = x.Args[1].Typ
 				}
 				if ty == nil {
+					ty = x.Args[0].Typ
+				}
+				isLenCap := func(t *ir.Term) bool {
+					for t.Op == "conv" && len(t.Args) == 1 {
+						t = t.Args[0]
+					}
+					return t.Op == "len" || t.Op == "cap"
+				}
+				if ty == nil && !isLenCap(x.Args[1]) && !isLenCap(x.Args[0]) {
 					return
 				}
-				if b, isB := ty.Underlying().(*types.Basic); !isB || b.Info()&types.IsInteger == 0 {
-					return
+				if ty != nil {
+					if b, isB := ty.Underlying().(*types.Basic); !isB || b.Info()&types.IsInteger == 0 {
+						return
+					}
 				}
 				d := x.Args[1]
 				for d.Op == "conv" && len(d.Args) == 1 {
@@ -1931,4 +1903,90 @@ func freeVarDirectChanUse(fn *ssa.Function, fv *ssa.FreeVar) bool {
 		}
 	}
 	return false
+}
+
+
+// panicsOnNilArgument: the path ends in an explicit panic, has found a parameter of fn nil, and has started no
+// goroutine and performed no channel operation before.
+func panicsOnNilArgument(p *ir.Path, fn *ssa.Function) bool {
+	found := false
+	for i := range p.Steps {
+		st := &p.Steps[i]
+		switch st.Kind {
+		case ir.KGo, ir.KSend, ir.KRecv, ir.KSelect, ir.KClose:
+			return false
+		case ir.KBranch:
+			at := st.Atom
+			if at.Op == "bin" && at.Aux == "==" && len(at.Args) == 2 && st.Pol {
+				for j := 0; j < 2; j++ {
+					if at.Args[j].IsNil() && at.Args[1-j].Op == "param" {
+						for k := range fn.Params {
+							if paramOf(at.Args[1-j], fn, k) {
+								found = true
+							}
+						}
+					}
+				}
+			}
+		}
+	}
+	return found
+}
+
+// panicSources: no explicit panic, unguarded integer division, constant index into a possibly shorter argument
+// slice, double close or close of a foreign channel in the stage's goroutines (shared with C05: a stage that dies on
+// an unbuffered input delivers nothing).
+func panicSources(c *core.Ctx, s *Stage, procs []*proc) {
+	if c.Rules["no-panic-source"] == nil {
+		c.Doc("no-panic-source", 1, "no explicit panic, division by a possibly zero value, double close, or close of a foreign/nil channel in a library goroutine")
+	}
+	for _, pr := range procs {
+		ok := true
+		for _, p := range pr.an.AllPaths() {
+			if p.Exit == ir.ExitPanic {
+				// argument validation in the stage function itself - `if ctx == nil { panic(...) }`, `if f == nil ...` -
+				// runs on the caller's goroutine before anything is started and fires only for a nil argument
+				if pr.g == nil && panicsOnNilArgument(p, s.Fn) {
+					continue
+				}
+				ok = false
+				c.Fail("no-panic-source", pr.name, lastPos(p), "explicit panic reachable in a library goroutine")
+				break
+			}
+			if st, d := divisionWithoutGuard(pr.an, p, func(d *ir.Term) bool { return spawnGuardsNonZero(s, pr, d) }); st != nil {
+				ok = false
+				c.Fail("no-panic-source", pr.name, st.Pos(), "an integer division by %s is executed although the path has not excluded %s == 0 (the goroutine dies with 'integer divide by zero')", short(d), short(d))
+				break
+			}
+			if st := constIndexWithoutBound(p); st != nil {
+				ok = false
+				c.Fail("no-panic-source", pr.name, st.Pos(), "an element of a slice argument is read at a constant index although the path has not established that the slice is that long (an empty argument list panics with index out of range)")
+				break
+			}
+			closed := map[string]bool{}
+			for i := range p.Steps {
+				st := &p.Steps[i]
+				if st.Kind != ir.KClose {
+					continue
+				}
+				k := st.A[0].Key()
+				if closed[k] {
+					ok = false
+					c.Fail("no-panic-source", pr.name, st.Pos(), "channel closed twice on one path")
+				}
+				closed[k] = true
+				if !isMadeChan(st.A[0]) {
+					ok = false
+					c.Fail("no-panic-source", pr.name, st.Pos(), "close of a channel the stage did not make (%s): closing a foreign or nil channel can panic", short(st.A[0]))
+				}
+			}
+			if !ok {
+				break
+			}
+		}
+		if ok {
+			c.Ok("no-panic-source", pr.name, pr.fn.Pos(), "no panic / double close / foreign close")
+		}
+	}
+
 }
